@@ -244,14 +244,26 @@ pub fn eval(expr: Node) -> Result<Number, Box<dyn error::Error>> {
             }
         }
         Negative(expr1) => {
-            let x = eval(*expr1)?;
-            match x {
-                Number::Integer(v) => match 0_i64.checked_sub(v) {
-                    Some(neg) => Ok(Number::Integer(neg)),
-                    None => Ok(Number::Float(-(v as f64))),
-                },
-                Number::Float(v) => Ok(Number::Float(-v)),
+            // a run of prefix minus signs is unwound here instead of costing one recursion level each
+            let mut operand = *expr1;
+            let mut signs = 1;
+            while let Negative(inner) = operand {
+                #[cfg(feature = "verif_hooks")]
+                crate::verif_hooks::tick(2);
+                operand = *inner;
+                signs += 1;
             }
+            let mut x = eval(operand)?;
+            for _ in 0..signs {
+                x = match x {
+                    Number::Integer(v) => match 0_i64.checked_sub(v) {
+                        Some(neg) => Number::Integer(neg),
+                        None => Number::Float(-(v as f64)),
+                    },
+                    Number::Float(v) => Number::Float(-v),
+                };
+            }
+            Ok(x)
         }
         Pow(expr1, expr2) => {
             let a = eval(*expr1)?;
